@@ -160,3 +160,181 @@ Proof. intros refok st Hp. plain_cases st Hp. Qed.
 
 Lemma pat_misnested_dies : forall refok st, plain (x_mode st) = true -> run_opt refok st pat_misnested = None.
 Proof. intros refok st Hp. plain_cases st Hp. Qed.
+
+(* ---- the depth of the element stack is determined by what remains to be read ------------ *)
+Definition in_tag (m : mode) : bool :=
+  match m with
+  | MSTag _ | MAName _ | MAEq0 | MAEq | MAVal _ | MEWs => true
+  | MAmp (RAttr _) | MEnt (RAttr _) _ | MHash (RAttr _) | MDec (RAttr _) _
+  | MHexS (RAttr _) | MHex (RAttr _) _ => true
+  | _ => false
+  end.
+
+Definition mode_sim (m1 m2 : mode) : Prop :=
+  m1 = m2 \/ exists a b, m1 = MText a /\ m2 = MText b.
+
+Definition sim (s1 s2 : xst) : Prop :=
+  mode_sim (x_mode s1) (x_mode s2) /\
+  (in_tag (x_mode s1) = true -> x_tag s1 = x_tag s2 /\ x_attrs s1 = x_attrs s2).
+
+Lemma mode_sim_refl : forall m, mode_sim m m.
+Proof. left. reflexivity. Qed.
+
+Ltac crush_two :=
+  repeat match goal with
+  | H : (if ?b then _ else _) = Some _ |- _ => destruct b eqn:?; try discriminate
+  | H : match ?x with _ => _ end = Some _ |- _ => destruct x eqn:?; try discriminate
+  | H : Some _ = Some _ |- _ => inversion H; subst; clear H
+  | H : None = Some _ |- _ => discriminate
+  | H : true = false |- _ => discriminate
+  | H : false = true |- _ => discriminate
+  end.
+
+Lemma step_sim : forall refok s1 s2 c s1' s2',
+  sim s1 s2 -> step refok s1 c = Some s1' -> step refok s2 c = Some s2' ->
+  sim s1' s2' /\
+  length (x_stack s1') + length (x_stack s2) = length (x_stack s2') + length (x_stack s1).
+Proof.
+  intros refok [m1 k1 t1 a1] [m2 k2 t2 a2] c s1' s2' [Hm Ht] H1 H2. cbn [x_mode x_tag x_attrs] in *.
+  destruct Hm as [Hm|[ra [rb [-> ->]]]].
+  - subst m2. unfold step in H1, H2. cbn [x_mode] in H1, H2.
+    destruct m1; try match goal with x : rctx |- _ => destruct x end; cbn [in_tag] in Ht;
+      try (destruct (Ht eq_refl) as [<- <-]); clear Ht;
+      cbn [x_mode x_stack x_tag x_attrs with_mode push_tag back] in H1, H2;
+      unfold pop_tag in H1, H2; cbn [x_stack] in H1, H2;
+      crush_two; unfold sim, push_tag; cbn [x_mode x_stack x_tag x_attrs with_mode length in_tag back];
+      try (split; [split; [apply mode_sim_refl | try discriminate; auto] | lia]).
+    all: match goal with
+         | |- in_tag (if ?b then _ else _) = true -> _ => destruct b; cbn [in_tag]; discriminate
+         end.
+  - clear Ht. unfold step in H1, H2. cbn [x_mode x_stack x_tag x_attrs with_mode] in H1, H2.
+    crush_two; unfold sim; cbn [x_mode x_stack x_tag x_attrs with_mode length in_tag];
+      (split; [split; [try apply mode_sim_refl; try (right; eauto) | discriminate] | lia]).
+Qed.
+
+Theorem depth_unique : forall refok s st1 st2,
+  sim st1 st2 -> run refok st1 s = true -> run refok st2 s = true ->
+  length (x_stack st1) = length (x_stack st2).
+Proof.
+  intros refok. induction s as [|c s IH]; intros st1 st2 Hs H1 H2.
+  - cbn [run] in H1, H2. unfold final in H1, H2.
+    destruct (x_mode st1); try discriminate; destruct (x_stack st1); try discriminate;
+    destruct (x_mode st2); try discriminate; destruct (x_stack st2); try discriminate. reflexivity.
+  - cbn [run] in H1, H2.
+    destruct (step refok st1 c) as [st1'|] eqn:E1; [|discriminate].
+    destruct (step refok st2 c) as [st2'|] eqn:E2; [|discriminate].
+    destruct (step_sim _ _ _ _ _ _ Hs E1 E2) as [Hs' Hl].
+    specialize (IH _ _ Hs' H1 H2). lia.
+Qed.
+
+Lemma run_opt_plain : forall refok a st st',
+  no_special a = true -> plain (x_mode st) = true -> head_ok (x_mode st) a = true ->
+  run_opt refok st a = Some st' -> plain (x_mode st') = true.
+Proof.
+  intros refok. induction a as [|c a IH]; intros st st' Hn Hp Hh H.
+  - cbn [run_opt] in H. inversion H; subst. exact Hp.
+  - cbn [run_opt] in H. destruct (step refok st c) as [st1|] eqn:Es; [|discriminate].
+    destruct (step_plain _ _ _ _ _ Hp Hh Hn Es) as [Hp1 Hh1].
+    eapply IH; try eassumption. eapply no_special_tail; eassumption.
+Qed.
+
+Definition pat_open : str := [60; 117; 62]%N.              (* "<u>" *)
+Definition pat_close : str := [60; 47; 117; 62]%N.         (* "</u>" *)
+Definition s_u : str := [117]%N.
+
+Lemma open_from_text : forall refok rb k t a,
+  run_opt refok (mkx (MText rb) k t a) pat_open = Some (mkx (MText 0) (s_u :: k) [] []).
+Proof. intros. vm_compute. reflexivity. Qed.
+
+Lemma close_from_text : forall refok rb k t a,
+  run_opt refok (mkx (MText rb) k t a) pat_close = pop_tag (mkx (MEName s_u) k t a) s_u.
+Proof.
+  intros. unfold pat_close. cbn [run_opt].
+  change (step refok (mkx (MText rb) k t a) 60%N) with (Some (mkx MLt k t a)). cbv iota.
+  change (step refok (mkx MLt k t a) 47%N) with (Some (mkx MEt0 k t a)). cbv iota.
+  change (step refok (mkx MEt0 k t a) 117%N) with (Some (mkx (MEName s_u) k t a)). cbv iota.
+  change (step refok (mkx (MEName s_u) k t a) 62%N) with (pop_tag (mkx (MEName s_u) k t a) s_u).
+  destruct (pop_tag (mkx (MEName s_u) k t a) s_u); reflexivity.
+Qed.
+
+Lemma lt_dies_outside_text : forall refok st p,
+  plain (x_mode st) = true -> (forall rb, x_mode st <> MText rb) ->
+  run_opt refok st (60%N :: p) = None.
+Proof.
+  intros refok st p Hp Hm. cbn [run_opt].
+  assert (E : step refok st 60%N = None); [|rewrite E; reflexivity].
+  destruct st as [m k t a]; cbn [x_mode] in *; destruct m; cbn [plain] in Hp; try discriminate;
+    try (exfalso; eapply Hm; reflexivity);
+    try match goal with x : rctx |- _ =>
+          destruct x as [|q]; cbn [ok_ctx] in Hp; [| destruct (ok_q_cases _ Hp); subst q] end;
+    try match goal with q : N |- _ => destruct (ok_q_cases _ Hp); subst q end;
+    vm_compute; reflexivity.
+Qed.
+
+Lemma sim_text : forall ra rb k1 t1 a1 k2 t2 a2,
+  sim (mkx (MText ra) k1 t1 a1) (mkx (MText rb) k2 t2 a2).
+Proof. intros. split; cbn [x_mode in_tag]; [right; eauto | discriminate]. Qed.
+
+(* an unclosed start tag, anywhere *)
+Theorem insert_open_rejected : forall refok a b,
+  no_special a = true -> fragment_ok refok (a ++ b) = true ->
+  fragment_ok refok (a ++ pat_open ++ b) = false.
+Proof.
+  unfold fragment_ok. intros refok a b Hn H. rewrite run_app in H |- *.
+  destruct (run_opt refok x_init a) as [st|] eqn:Ea; [|discriminate].
+  assert (Hp : plain (x_mode st) = true) by (eapply run_opt_plain; try eassumption; reflexivity).
+  rewrite run_app.
+  destruct st as [m k t a0]. destruct m;
+    try (unfold pat_open; rewrite (lt_dies_outside_text refok _ _ Hp);
+         [reflexivity | cbn [x_mode]; intros; discriminate]).
+  rewrite open_from_text.
+  destruct (run refok (mkx (MText 0) (s_u :: k) [] []) b) eqn:E; [|reflexivity].
+  pose proof (depth_unique _ _ _ _ (sim_text rb 0 k t a0 (s_u :: k) [] []) H E) as Hl.
+  cbn [x_stack length] in Hl. lia.
+Qed.
+
+(* a stray end tag, anywhere *)
+Theorem insert_close_rejected : forall refok a b,
+  no_special a = true -> fragment_ok refok (a ++ b) = true ->
+  fragment_ok refok (a ++ pat_close ++ b) = false.
+Proof.
+  unfold fragment_ok. intros refok a b Hn H. rewrite run_app in H |- *.
+  destruct (run_opt refok x_init a) as [st|] eqn:Ea; [|discriminate].
+  assert (Hp : plain (x_mode st) = true) by (eapply run_opt_plain; try eassumption; reflexivity).
+  rewrite run_app.
+  destruct st as [m k t a0]. destruct m;
+    try (unfold pat_close; rewrite (lt_dies_outside_text refok _ _ Hp);
+         [reflexivity | cbn [x_mode]; intros; discriminate]).
+  rewrite close_from_text. unfold pop_tag. cbn [x_stack].
+  destruct k as [|top rest]; [reflexivity|]. destruct (str_eqb top s_u); [|reflexivity].
+  destruct (run refok (mkx (MText 0) rest [] []) b) eqn:E; [|reflexivity].
+  pose proof (depth_unique _ _ _ _ (sim_text rb 0 (top :: rest) t a0 rest [] []) H E) as Hl.
+  cbn [x_stack length] in Hl. lia.
+Qed.
+
+(* the four patterns that no state survives, anywhere *)
+Theorem contains_rejected : forall refok p s,
+  In p [pat_bare_amp; pat_bare_lt; pat_unterminated; pat_misnested] ->
+  contains p s = true -> no_special s = true -> fragment_ok refok s = false.
+Proof.
+  intros refok p s Hin Hc Hn. unfold fragment_ok.
+  assert (Hd : forall st, plain (x_mode st) = true -> run_opt refok st p = None).
+  { destruct Hin as [<-|[<-|[<-|[<-|[]]]]]; intros st Hp;
+      [apply pat_bare_amp_dies | apply pat_bare_lt_dies | apply pat_unterminated_dies
+       | apply pat_misnested_dies]; exact Hp. }
+  eapply reject_contains; try eassumption; reflexivity.
+Qed.
+
+(* any '%' makes the declaration malformed *)
+Lemma percent_step : forall m out s, ent_repl_from m out (c_pct :: s) = None.
+Proof. intros. destruct m; vm_compute; reflexivity. Qed.
+
+Theorem percent_rejected : forall s m out, In c_pct s -> ent_repl_from m out s = None.
+Proof.
+  induction s as [|c s IH]; intros m out Hin; [contradiction|].
+  destruct Hin as [->|Hin]; [apply percent_step|].
+  destruct m; cbn [ent_repl_from];
+    repeat match goal with
+    | |- (if ?b then _ else _) = None => destruct b
+    end; auto.
+Qed.
